@@ -58,10 +58,14 @@ func (c *vChunkConn) Read(p []byte) (int, error) {
 	}
 	return c.r.Read(p)
 }
-func (c *vChunkConn) Write(p []byte) (int, error)        { return len(p), nil }
-func (c *vChunkConn) Close() error                       { c.closed = true; return nil }
-func (c *vChunkConn) LocalAddr() net.Addr                { return &net.TCPAddr{IP: net.IPv4(127, 0, 0, 1), Port: 5060} }
-func (c *vChunkConn) RemoteAddr() net.Addr               { return &net.TCPAddr{IP: net.IPv4(127, 0, 0, 1), Port: 40001} }
+func (c *vChunkConn) Write(p []byte) (int, error) { return len(p), nil }
+func (c *vChunkConn) Close() error                { c.closed = true; return nil }
+func (c *vChunkConn) LocalAddr() net.Addr {
+	return &net.TCPAddr{IP: net.IPv4(127, 0, 0, 1), Port: 5060}
+}
+func (c *vChunkConn) RemoteAddr() net.Addr {
+	return &net.TCPAddr{IP: net.IPv4(127, 0, 0, 1), Port: 40001}
+}
 func (c *vChunkConn) SetDeadline(t time.Time) error      { return nil }
 func (c *vChunkConn) SetReadDeadline(t time.Time) error  { return nil }
 func (c *vChunkConn) SetWriteDeadline(t time.Time) error { return nil }
